@@ -1,3 +1,126 @@
 import DaeVerif.C06.Spec
+/-! # C06 — helper lemmas -/
 namespace DaeVerif.C06
+
+/-! ## Stream sniffer: what the relay gets -/
+
+theorem drainConn_eq (s : List Ev) : drainConn s = (clientBytes s, clientEnd s) := by
+  induction s with
+  | nil => rfl
+  | cons e rest ih =>
+    cases e with
+    | data b => simp [drainConn, clientBytes, clientEnd, ih]
+    | eof => rfl
+    | stall => simpa [drainConn, clientBytes, clientEnd] using ih
+    | rst => rfl
+
+theorem relay_atEof (buf : Bytes) (nm : Bool) (rest : List Ev) (d : Drain)
+    (h : drainConn rest = ([], none)) :
+    relayBytes (atEof buf nm rest) d = (buf, none) := by
+  unfold atEof
+  split
+  · cases d <;> simp [relayBytes, h]
+  · split <;> cases d <;> simp [relayBytes, h]
+
+theorem relay_sniffLoop (script : List Ev) (buf : Bytes) (nm : Bool) (d : Drain) :
+    relayBytes (sniffLoop buf nm script) d = (buf ++ clientBytes script, clientEnd script) := by
+  induction script generalizing buf nm with
+  | nil =>
+    rw [sniffLoop, relay_atEof _ _ _ _ rfl]; simp [clientBytes, clientEnd]
+  | cons e rest ih =>
+    cases e with
+    | eof => rw [sniffLoop, relay_atEof _ _ _ _ rfl]; simp [clientBytes, clientEnd]
+    | stall =>
+      cases d <;> simp [sniffLoop, relayBytes, drainConn_eq, clientBytes, clientEnd]
+    | rst =>
+      cases d <;> simp [sniffLoop, relayBytes, drainConn, clientBytes, clientEnd]
+    | data b =>
+      rw [sniffLoop]
+      split
+      · cases d <;> simp [relayBytes, drainConn_eq, clientBytes, clientEnd, List.append_assoc]
+      · split
+        · rw [ih]; simp [clientBytes, clientEnd, List.append_assoc]
+        · cases d <;> simp [relayBytes, drainConn_eq, clientBytes, clientEnd, List.append_assoc]
+
+/-! ## Slices -/
+
+theorem slice_append_right (a r : Bytes) (i j : Nat) :
+    slice (a ++ r) (a.length + i) (a.length + j) = slice r i j := by
+  unfold slice
+  rw [List.drop_append, List.drop_of_length_le (by omega)]
+  simp
+  congr 1
+  omega
+
+theorem slice_prefix (b c : Bytes) : slice (b ++ c) 0 b.length = b := by
+  unfold slice; simp
+
+theorem slice_mid (a b c : Bytes) : slice (a ++ (b ++ c)) a.length (a.length + b.length) = b := by
+  have := slice_append_right a (b ++ c) 0 b.length
+  simp only [Nat.add_zero] at this
+  rw [this, slice_prefix]
+
+theorem slice_mid' (a b c : Bytes) (n : Nat) (h : n = b.length) :
+    slice (a ++ (b ++ c)) a.length (a.length + n) = b := by subst h; exact slice_mid a b c
+
+theorem be16_u16 (n : Nat) : be16 (n / 256) (n % 256) = n := by
+  unfold be16; have := Nat.div_add_mod n 256; omega
+
+/-- A locator that serves the bytes of `S` (and may know a little more). -/
+structure Reads (s : Loc) (S : Bytes) : Prop where
+  range : ∀ i j, i ≤ j → j ≤ S.length → s.range i j = .ok (slice S i j)
+  at_ : ∀ i, i < S.length → s.at i = .ok (S.getD i 0)
+  len_ge : S.length ≤ s.len
+
+theorem reads_builtin (S : Bytes) : Reads (.builtin S) S where
+  range := by intro i j h1 h2; simp [Loc.range, h1, h2]
+  at_ := by
+    intro i h
+    simp only [Loc.at]
+    rw [List.getElem?_eq_getElem h]
+    simp [List.getD, List.getElem?_eq_getElem h]
+  len_ge := by simp [Loc.len]
+
+theorem encodeEntry_length (e : Nat × Bytes) : (encodeEntry e).length = 3 + e.2.length := by
+  simp [encodeEntry, u16]; omega
+
+theorem sniLoop_encode (s : Loc) (es : List (Nat × Bytes)) (pre post S : Bytes)
+    (hS : S = pre ++ (encodeEntries es ++ post)) (hr : Reads s S) :
+    sniLoop s (pre.length + (encodeEntries es).length) pre.length
+      = .ok ((firstHost es).map trimDot) := by
+  induction es generalizing pre with
+  | nil =>
+    unfold sniLoop
+    simp [encodeEntries, firstHost]
+  | cons e es ih =>
+    obtain ⟨t, n⟩ := e
+    have hlen : (encodeEntries ((t, n) :: es)).length = 3 + n.length + (encodeEntries es).length := by
+      simp [encodeEntries, encodeEntry_length]
+    have hSlen : S.length = pre.length + (3 + n.length + (encodeEntries es).length) + post.length := by
+      rw [hS]; simp [hlen]; omega
+    have hS' : S = pre ++ ([t, n.length / 256, n.length % 256] ++ (n ++ (encodeEntries es ++ post))) := by
+      rw [hS]; simp [encodeEntries, encodeEntry, u16]
+    have hr1 : s.range pre.length (pre.length + 3) = .ok [t, n.length / 256, n.length % 256] := by
+      rw [hr.range _ _ (by omega) (by omega), hS']
+      exact slice_mid' _ _ _ 3 rfl
+    unfold sniLoop
+    rw [dif_pos (by omega), hr1]
+    simp only [List.getD_cons_zero, List.getD_cons_succ, be16_u16]
+    by_cases ht : t = 0
+    · subst ht
+      have hr2 : s.range (pre.length + 3) (pre.length + 3 + n.length) = .ok n := by
+        rw [hr.range _ _ (by omega) (by omega), hS']
+        have := slice_mid' (pre ++ [0, n.length / 256, n.length % 256]) n (encodeEntries es ++ post) n.length rfl
+        simpa [List.append_assoc] using this
+      simp [hr2, firstHost, hlen]
+      omega
+    · have e1 : pre.length + (encodeEntries ((t, n) :: es)).length
+          = (pre ++ encodeEntry (t, n)).length + (encodeEntries es).length := by
+        simp [hlen, encodeEntry_length]; omega
+      have e2 : pre.length + 3 + n.length = (pre ++ encodeEntry (t, n)).length := by
+        simp [encodeEntry_length]; omega
+      simp only [ht, ne_eq, not_false_eq_true, if_true, firstHost, if_false]
+      rw [e1, e2]
+      exact ih (pre ++ encodeEntry (t, n)) (by rw [hS]; simp [encodeEntries, List.append_assoc])
+
 end DaeVerif.C06
